@@ -273,6 +273,13 @@ def _len_guards(b, F):
                         if dd[0] == "stmt" and dd[3][0] == "use" and dd[3][1][0] in ("c", "m") and len(dd[3][1][1]) == 1:
                             root = dd[3][1][1][0]
                     k = const_value(b.term_of_operand(other))
+                    if root not in acc_locals and k is not None:
+                        # the sum is computed first (in the loop or in an inlined helper) and stored back afterwards
+                        from rulelib import accumulator_of
+                        al = accumulator_of(b.term_of_operand(side))
+                        if al is not None:
+                            acc_locals.add(al)
+                            root = al
                     if root in acc_locals and k is not None:
                         # bound established on the continuing edge
                         op = d[3][1]
